@@ -14,6 +14,7 @@ structure ContGeo (a b : Rat) (c : Cont) : Prop where
   til : Til a 0 b 0 c.objs
   tree : Tree 0 (innerLevels c.objs)
   reset : c.Reset
+  len4 : 4 ≤ c.objs.length
 
 /-- coarsening clause: `coarsening_level = lmax_d - max(levels)`, never negative -/
 def CoarsOK (lm : Int) (objs : List Ival) : Prop :=
@@ -116,7 +117,8 @@ theorem postDim_spec (a b : List Rat) (lmax0 : Int) (st : DW) (d : Nat) (hd : d 
         subst hc'
         have e := (addCoarsening_geom (updateDim (setCoarsening lm c.objs)) (setCoarsening lm c.objs)).trans
           (setCoarsening_geom lm c.objs)
-        exact ⟨til_geom _ _ e.symm hgeo.til, by rw [innerLevels_geom _ _ e]; exact hgeo.tree, hgeo.reset⟩
+        exact ⟨til_geom _ _ e.symm hgeo.til, by rw [innerLevels_geom _ _ e]; exact hgeo.tree, hgeo.reset,
+          by simpa [addCoarsening, setCoarsening] using hgeo.len4⟩
       · simp only [hdd, if_false] at hc'
         exact h.geo d' c' hc'
     · intro d' c' lm' hd' hc' hl'
@@ -147,7 +149,8 @@ theorem postDim_spec (a b : List Rat) (lmax0 : Int) (st : DW) (d : Nat) (hd : d 
         simp only [hdc, if_true, Option.some.injEq] at hc'
         subst hc'
         have e := setCoarsening_geom lm c.objs
-        exact ⟨til_geom _ _ e.symm hgeo.til, by rw [innerLevels_geom _ _ e]; exact hgeo.tree, hgeo.reset⟩
+        exact ⟨til_geom _ _ e.symm hgeo.til, by rw [innerLevels_geom _ _ e]; exact hgeo.tree, hgeo.reset,
+          by simpa [setCoarsening] using hgeo.len4⟩
       · simp only [hdd, if_false] at hc'
         exact h.geo d' c' hc'
     · intro d' c' lm' hd' hc' hl'
@@ -216,12 +219,22 @@ theorem rebalanceAll_spec (dec : Nat → Nat → Nat → Bool) : ∀ (conts : Li
 
 /-! ## the whole step -/
 
+theorem splitSel_length_ge : ∀ (L : List Ival) (P : Nat → Bool), L.length ≤ (splitSel P L).length
+  | [], _ => Nat.le_refl _
+  | x :: xs, P => by
+    have ih := splitSel_length_ge xs (fun i => P (i + 1))
+    simp only [splitSel, List.length_append, List.length_cons]
+    by_cases hp : P 0 = true
+    · simp only [hp, if_true, Ival.split, List.length_cons, List.length_nil]; omega
+    · simp only [hp]; simp; omega
+
 theorem stepSpec_geo {a b : Rat} {c : Cont} (bens : List Rat) (tol : Rat) (h : ContGeo a b c) :
     ContGeo a b (c.stepSpec bens tol) :=
   ⟨til_splitSel _ _ h.til, by
       have := tree_splitSel c.objs (Pb bens tol) h.til (by simpa using h.tree)
       simpa [Cont.stepSpec] using this,
-    ⟨rfl, rfl, rfl⟩⟩
+    ⟨rfl, rfl, rfl⟩,
+    le_trans h.len4 (splitSel_length_ge _ _)⟩
 
 /-- **every `refine()` call keeps the state well formed**, for every benefit table, margin, rebalancing switch
 and every outcome `dec` of the rebalancing comparisons; it never fails; and it refines exactly the positions
@@ -271,10 +284,12 @@ theorem step_wf (a b : List Rat) (lmax0 : Int) (st : DW) (h : DWWF a b lmax0 st)
       rw [hc'] at hc; simp only [Option.some.injEq] at hc
       subst hc
       have g := hgeo1 d _ hc1
-      obtain ⟨o', t', e', t1, t2, _⟩ := rebalance_spec dec m1.conts[d].objs _ _ g.til g.tree
+      obtain ⟨o', t', e', t1, t2, fr⟩ := rebalance_spec dec m1.conts[d].objs _ _ g.til g.tree
       rw [e] at e'; simp only [Option.some.injEq, Prod.mk.injEq] at e'
       obtain ⟨rfl, rfl⟩ := e'
-      exact ⟨t1, t2, g.reset⟩
+      have hlen : o.length = m1.conts[d].objs.length := by
+        have := congrArg List.length fr; simpa using this
+      exact ⟨t1, t2, g.reset, by show 4 ≤ o.length; rw [hlen]; exact g.len4⟩
   obtain ⟨conts, cmps, hrb, hlc, hgc⟩ := hreb
   -- coarsening update and raise_lmax per dimension
   have hinv0 : DWInv a b lmax0 0 { st with m := { m1 with conts := conts } } :=
@@ -295,8 +310,24 @@ theorem step_wf (a b : List Rat) (lmax0 : Int) (st : DW) (h : DWWF a b lmax0 st)
   · exact postDims_lmin _ _
 
 /-- the initial state is well formed -/
+theorem completeLevels_length : ∀ (k level : Nat), (completeLevels k level).length + 1 = 2 ^ k
+  | 0, _ => rfl
+  | k+1, level => by
+    have := completeLevels_length k (level + 1)
+    simp only [completeLevels, List.length_append, List.length_cons, List.length_nil]
+    rw [Nat.pow_succ]; omega
+
+theorem initObjs_length (maxv : Nat) (a b : Rat) (hab : a < b) : (initObjs maxv a b).length = 2 ^ maxv := by
+  obtain ⟨t1, _, _, t4⟩ := initObjs_wf maxv a b hab
+  have h1 : (innerLevels (initObjs maxv a b)).length = (initObjs maxv a b).length - 1 := innerLevels_length
+  rw [t4] at h1
+  have h2 := completeLevels_length maxv 0
+  have h3 : (initObjs maxv a b).length ≠ 0 := by
+    intro e; exact til_ne t1 (List.eq_nil_of_length_eq_zero e)
+  omega
+
 theorem init_wf (lmin lmax : Nat) (a b : List Rat) (hlen : a.length = b.length) (hd : 1 ≤ a.length)
-    (hl : lmin ≤ lmax) (hab : ∀ d, d < a.length → a.getD d 0 < b.getD d 0) :
+    (hl : lmin ≤ lmax) (h2 : 2 ≤ lmax) (hab : ∀ d, d < a.length → a.getD d 0 < b.getD d 0) :
     DWWF a b lmax (DW.init lmin lmax a b) := by
   have hzl : (List.zipWith (fun x y => ({ objs := initObjs lmax x y } : Cont)) a b).length = a.length := by
     simp [hlen]
@@ -315,7 +346,11 @@ theorem init_wf (lmin lmax : Nat) (a b : List Rat) (hlen : a.length = b.length) 
     have hlt := hab d hdlt
     rw [ha, hb] at hlt ⊢
     obtain ⟨t1, t2, _, _⟩ := initObjs_wf lmax a[d] b[d] hlt
-    exact ⟨t1, t2, ⟨rfl, rfl, rfl⟩⟩
+    refine ⟨t1, t2, ⟨rfl, rfl, rfl⟩, ?_⟩
+    show 4 ≤ (initObjs lmax a[d] b[d]).length
+    rw [initObjs_length lmax _ _ hlt]
+    calc 4 = 2 ^ 2 := rfl
+      _ ≤ 2 ^ lmax := Nat.pow_le_pow_right (by omega) h2
   · intro d c lm _ hc hlm
     simp only [DW.init] at hc hlm
     have hdlt : d < a.length := by
